@@ -4,7 +4,7 @@ CONSTANTS
   Validators <- MCValidators
   OpIds <- MCOpIds
   Alphabet <- AlphaCrash
-  Setups <- SetupsCrash
+  Setups <- SetupsCrashQuick
   MaxEvents = 3
   MaxBlocks = 2
   MaxFaults = 1
